@@ -10,13 +10,13 @@ MODS = ["OpenPinch.utils.stream_linearisation"]
 
 def analyse(ctx: CheckContext, p: Program):
     r = Resolver(p)
-    generic_rules(ctx, p, r, "C17")
-    simplify.check_cross_contract(ctx, p, r)
+    ctx.guard(generic_rules, ctx, p, r, "C17")
+    ctx.guard(simplify.check_cross_contract, ctx, p, r)
     fs = [f for f in p.all_funcs if f.module.name in ("OpenPinch.utils.stream_linearisation",) or
           (f.module.name == "OpenPinch.utils.miscellaneous" and f.name.startswith("clean_composite"))]
-    api.check_module_attrs(ctx, p, r, fs)
-    simplify.check_keep_mask(ctx, p, r)
-    simplify.check_flag_threading(ctx, p, r, MODS)
+    ctx.guard(api.check_module_attrs, ctx, p, r, fs)
+    ctx.guard(simplify.check_keep_mask, ctx, p, r)
+    ctx.guard(simplify.check_flag_threading, ctx, p, r, MODS)
 
 
 def run(ctx: CheckContext):
